@@ -6,20 +6,26 @@ strings the extracted Coq models print (see harness/ocaml/bind_driver.ml):
    posonly + pos_or_kw + kwonly + [*args] + [**kwargs] order, v = Pi | Kid | D | Vi.j | Wid.id
 """
 import collections
+import hashlib
 import inspect
 import itertools
+import os
 import re
+import shutil
 
 P_NAMES = ["a", "b", "c"]
 Q_NAMES = ["d", "e", "f"]
 K_NAMES = ["g", "h", "i"]
 VA, KW, FOREIGN = "va", "kw", "zz"
-ALL = P_NAMES + Q_NAMES + K_NAMES + [VA, KW, FOREIGN, "self", "cls"]
+MAXPOS = 8          # classes P0..P8 exist in every generated module
+# "_0".."_8": function.argname(i), the placeholder names the stub mapper gives to overflowing positionals
+PLACEHOLDERS = ["_%d" % i for i in range(MAXPOS + 1)]
+ALL = P_NAMES + Q_NAMES + K_NAMES + [VA, KW, FOREIGN, "self", "cls"] + PLACEHOLDERS
 ID = {n: i for i, n in enumerate(ALL)}
+assert ID["_0"] == 14       # harness/ocaml/bind_driver.ml: argname i = 14 + i
 NAME = {i: n for n, i in ID.items()}
 VARIANTS = ["func", "lambda", "method", "classmethod", "staticmethod", "init"]   # + CTOR_VARIANTS below
 FIRST = {"method": "self", "init": "self", "classmethod": "cls"}
-MAXPOS = 8          # classes P0..P8 exist in every generated module
 
 # P, Q, K, D: tuples of names; va, kw: bools
 Sig = collections.namedtuple("Sig", "P Q K D va kw")
@@ -56,6 +62,19 @@ CTOR_VARIANTS = ["ctor:i1", "ctor:i2", "ctor:n0", "ctor:n1", "ctor:n2",
                  "ctor:n0i0s", "ctor:n1i0s", "ctor:n0i1s", "ctor:n1i1s", "ctor:n2i1s",
                  "ctor:n0i0g", "ctor:n1i0g", "ctor:n0i0G", "ctor:n0i1G",
                  "ctor:n0i0d", "ctor:n1i0d", "ctor:n0i1d", "ctor:none"]
+# Stub variants: the callee's signature comes from a generated .pyi (PyTDFunction, single signature); the CPython
+# side is a real function / method with the same signature.  "pyi:typed": a module-level function whose *va and
+# **kw are annotated with a class no argument is an instance of, so "something landed in *va / **kw" becomes
+# observable as wrong-arg-types naming the first such argument.
+PYI_VARIANTS = ["pyi:func", "pyi:method", "pyi:classmethod", "pyi:staticmethod", "pyi:init", "pyi:typed"]
+
+
+def base_variant(variant):
+  if variant.startswith("pyi:"):
+    return "func" if variant == "pyi:typed" else variant[4:]
+  return variant
+
+
 _CTOR = re.compile(r"ctor:(?:n(\d))?(?:i(\d))?([sgGd])?$")
 GENERIC = Sig((), (), (), (), True, True)
 OBJECT_INIT = Sig(("self",), (), (), (), False, False)
@@ -95,7 +114,7 @@ def parts(sig, variant):
     return [(OBJECT_INIT, "self")]
   lay = ctor_layout(variant)
   if lay is None:
-    first = FIRST.get(variant)
+    first = FIRST.get(base_variant(variant))
     return [(with_first(sig, first), first)]
   dn, di, mode = lay
   out = []
@@ -113,7 +132,7 @@ def parts(sig, variant):
 
 
 def shift_of(variant):
-  return 1 if (variant in FIRST or variant.startswith("ctor:")) else 0
+  return 1 if (base_variant(variant) in FIRST or variant.startswith("ctor:")) else 0
 
 
 def effective(sig, variant):
@@ -139,6 +158,11 @@ def kw_universe(sig, variant):
     for n in all_names(e):
       if n not in seen:
         seen.append(n)
+  if variant == "pyi:typed":
+    # the placeholder name of the first overflowing positional argument, as a keyword
+    k = len(sig.P) + len(sig.Q)
+    if k <= MAXPOS:
+      return seen + [FOREIGN, "_%d" % k]
   return seen + [FOREIGN]
 
 
@@ -161,8 +185,9 @@ def model_lines(sig, variant, shape):
   """One input line of the extracted model per signature bound by the call."""
   shift = shift_of(variant)
   f = lambda l: "%d %s" % (len(l), " ".join(str(ID[n]) for n in l))
-  return ["%s %s %s %s %d %d %d %s" % (f(e.P), f(e.Q), f(e.K), f(e.D), ID[VA] if e.va else -1,
-                                       ID[KW] if e.kw else -1, shape[0] + shift, f(shape[1]))
+  return ["%s %s %s %s %d %d %d %s %d" % (f(e.P), f(e.Q), f(e.K), f(e.D), ID[VA] if e.va else -1,
+                                          ID[KW] if e.kw else -1, shape[0] + shift, f(shape[1]),
+                                          1 if variant == "pyi:typed" else 0)
           for e, _ in parts(sig, variant)]
 
 
@@ -184,7 +209,7 @@ def header():
   for i in range(MAXPOS + 1):
     s.append(f"class P{i}: pass\np{i} = P{i}()\n")
   for n in ALL:
-    s.append(f"class K_{n}: pass\nk_{n} = K_{n}()\nclass D_{n}: pass\n")
+    s.append(f"class K_{n}: pass\nk_{n} = K_{n}()\n" + ("" if n in PLACEHOLDERS else f"class D_{n}: pass\n"))
   return "".join(s)
 
 
@@ -241,10 +266,46 @@ def ctor_text(sig, variant, j):
   return "".join(out)
 
 
+def stub_sig_text(e, typed):
+  """Parameter list as a .pyi writes it."""
+  d = lambda n: n + ("=..." if n in e.D else "")
+  ps = [d(n) for n in e.P]
+  if e.P:
+    ps.append("/")
+  ps += [d(n) for n in e.Q]
+  if e.va:
+    ps.append("*" + VA + (": Z" if typed else ""))
+  elif e.K:
+    ps.append("*")
+  ps += [d(n) for n in e.K]
+  if e.kw:
+    ps.append("**" + KW + (": Z" if typed else ""))
+  return ", ".join(ps)
+
+
+def stub_def_text(sig, variant, j):
+  """The j-th callee as a stub declares it."""
+  e = effective(sig, variant)
+  pt = stub_sig_text(e, variant == "pyi:typed")
+  b = base_variant(variant)
+  if b == "func":
+    return f"def f{j}({pt}) -> None: ...\n"
+  if b == "method":
+    return f"class C{j}:\n  def m({pt}) -> None: ...\n"
+  if b == "classmethod":
+    return f"class C{j}:\n  @classmethod\n  def m({pt}) -> None: ...\n"
+  if b == "staticmethod":
+    return f"class C{j}:\n  @staticmethod\n  def m({pt}) -> None: ...\n"
+  if b == "init":
+    return f"class C{j}:\n  def __init__({pt}) -> None: ...\n"
+  raise ValueError(variant)
+
+
 def def_text(sig, variant, j):
-  """Definition of the j-th callee of a module."""
+  """Definition of the j-th callee of a module (for a stub variant: the real Python twin)."""
   if variant.startswith("ctor:"):
     return ctor_text(sig, variant, j)
+  variant = base_variant(variant)
   e = effective(sig, variant)
   pt, rt = esig_text(e), _tuple_text(e)
   if variant == "func":
@@ -262,10 +323,20 @@ def def_text(sig, variant, j):
   raise ValueError(variant)
 
 
-def call_text(sig, variant, j, shape):
+def call_text(sig, variant, j, shape, stub=""):
+  """The call expression; for a stub variant under pytype, `stub` is the stub module's name."""
   shift = shift_of(variant)
   args = [f"p{i + shift}" for i in range(shape[0])] + [f"{k}=k_{k}" for k in shape[1]]
   a = ", ".join(args)
+  if variant.startswith("pyi:"):
+    b, q = base_variant(variant), (stub + "." if stub else "")
+    if b == "func":
+      return f"{q}f{j}({a})"
+    if b == "method":
+      return f"c{j}.m({a})"
+    if b == "init":
+      return f"{q}C{j}({a})"
+    return f"{q}C{j}.m({a})"
   if variant in ("func", "lambda"):
     return f"f{j}({a})"
   if variant == "method":
@@ -278,11 +349,28 @@ def call_text(sig, variant, j, shape):
 
 
 def module_text(group):
-  """group: list of (sig, variant, [shapes]).  Returns (source, {line: (group index, shape index)})."""
-  chunks = [HEADER]
+  """group: list of (sig, variant, [shapes]).
+  Returns (source with the definitions only, for CPython; source with one call per line, for pytype;
+           {line: (group index, shape index)}; (stub module name, stub text) or None)."""
+  cpy = [HEADER]
+  py = [HEADER]
+  stub = ["class Z: ...\n"]
   for j, (sig, variant, _) in enumerate(group):
-    chunks.append(def_text(sig, variant, j))
-  src = "".join(chunks)
+    d = def_text(sig, variant, j)
+    cpy.append(d)
+    if variant.startswith("pyi:"):
+      stub.append(stub_def_text(sig, variant, j))
+    else:
+      py.append(d)
+  stub_text = "".join(stub)
+  has_stub = len(stub) > 1
+  modname = "c13stub_" + hashlib.sha256(stub_text.encode()).hexdigest()[:16] if has_stub else ""
+  if has_stub:
+    py.append(f"import {modname}\n")
+    for j, (sig, variant, _) in enumerate(group):
+      if variant == "pyi:method":
+        py.append(f"c{j} = {modname}.C{j}()\n")
+  src = "".join(py)
   line = src.count("\n")
   where = {}
   calls = []
@@ -290,8 +378,11 @@ def module_text(group):
     for k, sh in enumerate(shapes):
       line += 1
       where[line] = (j, k)
-      calls.append(f"reveal_type({call_text(sig, variant, j, sh)})\n")
-  return src, src + "".join(calls), where
+      if variant.startswith("pyi:"):
+        calls.append(call_text(sig, variant, j, sh, modname) + "\n")
+      else:
+        calls.append(f"reveal_type({call_text(sig, variant, j, sh)})\n")
+  return "".join(cpy), src + "".join(calls), where, ((modname, stub_text) if has_stub else None)
 
 
 # ------------------------------------------------------------------------------------------------
@@ -325,9 +416,26 @@ def same_py(model, impl):
   return canon(model) == canon(impl)
 
 
+def stub_view(s, sig, variant):
+  """What is observable of a result when the callee is a stub: an error as is; a success as "O:", or for
+  pyi:typed as "T:<id>" naming the first argument that landed in *va (placeholder _<i>) or **kw (smallest
+  keyword name, as sorted() orders them) and so violates the annotation."""
+  if not s.startswith("O:") or s == "O:!self-rebound":
+    return s
+  if variant != "pyi:typed":
+    return "O:"
+  for v in s[2:].split(","):
+    if v.startswith("V") and v != "V":
+      return "T:%d" % ID["_%s" % v[1:].split(".")[0]]
+  for v in s[2:].split(","):
+    if v.startswith("W") and v != "W":
+      return "T:%d" % ID[min(NAME[int(x)] for x in v[1:].split("."))]
+  return "O:"
+
+
 def outcome_only(s):
   """What the property statement compares: error-or-not and, on success, the bindings."""
-  return "E" if s.startswith("E:") else canon(s)
+  return "E" if s.startswith("E:") else s if s.startswith("T:") else canon(s)
 
 
 # ------------------------------------------------------------------------------------------------
@@ -405,7 +513,7 @@ def _bind_one(fn, bargs, kwargs, ns, e, first):
 
 def cpython_results(group):
   """For every (sig, variant, shapes) and every shape: (real call result, Signature.bind result)."""
-  src, _, _ = module_text(group)
+  src = module_text(group)[0]
   ns = {}
   exec(compile(src, "<c13>", "exec"), ns)     # our own generated text  # pylint: disable=exec-used
   out = []
@@ -414,6 +522,7 @@ def cpython_results(group):
     names = names_v(sig, variant)
     shift = shift_of(variant)
     is_ctor = variant.startswith("ctor:")
+    variant = base_variant(variant)       # a stub variant's CPython side is its real twin
     # the callee, and for Signature.bind the underlying function(s) with their explicit first argument
     if variant in ("func", "lambda"):
       callee = ns[f"f{j}"]; fns = [(callee, None)]
@@ -462,13 +571,23 @@ def cpython_results(group):
 _STATE = {}
 
 
+def stub_dir():
+  """Where this process writes the generated .pyi files (on pytype's pythonpath)."""
+  import common
+  return os.path.join(common.BUILD, "c13", "stubs", str(os.getpid()))
+
+
 def _pytype():
-  if "opts" not in _STATE:
+  if _STATE.get("pid") != os.getpid():
     import common
     common.bootstrap_pytype()
     from pytype import config, io, load_pytd      # pylint: disable=import-outside-toplevel
+    d = stub_dir()
+    shutil.rmtree(d, ignore_errors=True)
+    os.makedirs(d, exist_ok=True)
+    _STATE["pid"] = os.getpid()
     _STATE["io"] = io
-    _STATE["opts"] = config.Options.create(python_version=(3, 12))
+    _STATE["opts"] = config.Options.create(python_version=(3, 12), pythonpath=d)
     _STATE["loader"] = load_pytd.create_loader(_STATE["opts"])
   return _STATE["io"], _STATE["opts"], _STATE["loader"]
 
@@ -543,7 +662,12 @@ def pytype_results(group):
   (errors at the call's line, else the revealed type of the returned parameter tuple); plus the errors
   pytype reported anywhere else in the module (none are expected)."""
   io, opts, loader = _pytype()
-  _, src, where = module_text(group)
+  _, src, where, stub = module_text(group)
+  if stub:
+    path = os.path.join(stub_dir(), stub[0] + ".pyi")
+    if not os.path.exists(path):
+      with open(path, "w") as f:
+        f.write(stub[1])
   try:
     ret, _ = io.generate_pyi(src, opts, loader)
   except Exception as ex:   # pylint: disable=broad-except
@@ -564,7 +688,18 @@ def pytype_results(group):
     sig, variant, _ = group[j]
     names = names_v(sig, variant)
     is_ctor = variant.startswith("ctor:")
-    if errs[line]:
+    if variant.startswith("pyi:"):
+      # a stub has no body: only the errors at the call are observable
+      if not errs[line]:
+        r = "O:"
+      elif len(errs[line]) > 1:
+        r = "E:multiple:" + ";".join(n for n, _ in errs[line])
+      elif errs[line][0][0] == "wrong-arg-types":
+        m = re.search(r"Expected: \(.*?(\w+): [\w.]*\bZ\b", errs[line][0][1])
+        r = "T:%d" % ID[m.group(1)] if m and m.group(1) in ID else "T:?" + errs[line][0][1].replace("\n", " | ")
+      else:
+        r = _decode_error(*errs[line][0])
+    elif errs[line]:
       if len(errs[line]) > 1:
         r = "E:multiple:" + ";".join(n for n, _ in errs[line])
       elif ((variant == "init" or is_ctor) and errs[line][0][0] == "attribute-error"
